@@ -24,6 +24,17 @@ PART = {
         "race_anchors": ["beaconExists", "KeypairFor", "(*DrandHandler).ChainHashes", "readBeaconID", "getBeaconProcessByID", "RemoveBeaconProcess",
                          "InstantiateBeaconProcess", "AddBeaconHandler", "RemoveBeaconHandler", "ListBeaconIDs", "(*DrandHandler)"],
     },
+    "C01": {
+        "runs": [{"name": "daemonnet-public", "pkg": P, "run": "^TestVF_C01Public$", "timeout": "20m", "timeout_thorough": "60m", "race_thorough": True}],
+        "rule": "daemon level: one real daemon (loopback gRPC+HTTP, real clock, bolt) runs a chained and an unchained 2-of-3 chain far behind their clock; "
+                "the harness, holding shares 1 and 2, produces every round by sending both partials over PartialBeacon in bursts of 2-4 consecutive "
+                "rounds back to back, while 12 (16 thorough) concurrent clients ask gRPC PublicRand, PublicRandStream (first item), HTTP /public/{r} "
+                "and /{hash}/public/{r} for rounds head+1 (waiter path), head, head-1, 1, head+2, 2^63, latest; every successful answer must carry "
+                "exactly the asked round, verify under the harness-generated group key (with its previous signature on the chained scheme), equal "
+                "the signature the harness computed itself, and randomness (HTTP, streams, gRPC when present) = SHA-256(signature). "
+                "Non-trivial = a waiter (head+1) request answered while a burst was in progress; distinct by (endpoint,chain,burst length,round mod 8)",
+        "assumptions": ["BLS signatures are unique: the harness's own signature of a round is the only valid one", "refusals and time-outs are not judged"],
+    },
     "C14": {
         "runs": [
             {"name": "daemonnet", "pkg": P, "run": "^TestVF_C14$", "timeout": "30m", "timeout_thorough": "90m", "race_thorough": True},
@@ -34,7 +45,9 @@ PART = {
                 "every oneof variant of GossipPacket and dkg.Packet incl. nil payloads and a Dkg bundle inside a gossip packet, Status naming k "
                 "bogus addresses, HTTP non-hex hashes / overflowing rounds / unknown and very long paths; after each request a probe on the same "
                 "endpoint and on one other service must return within 10 s ((k+1)*10 s for status naming k addresses; x3 when the binaries carry "
-                "the race detector); then sequences of 1-5 requests drawn from the corpus. Non-trivial = the request was delivered and both "
+                "the race detector); then sequences of 1-5 requests drawn from the corpus; then a flood of 300 (600) individually valid partials from ONE member "
+                "(harness-held share; distinct previous signatures, rounds head+1..head+4, chain stalled) on the running unchained chain (replayed "
+                "partial) and on a stalled chained chain (each pair signed), after which the harness completes the round. Non-trivial = the request was delivered and both "
                 "probes ran; distinct by (endpoint,input-class,node-state) resp. by the sequence",
         "assumptions": ["a probe that does not return is a violation only together with a goroutine dump of the child showing a parked drand frame",
                         "process death is read from the child's exit status and stderr (fatal error / panic)"],
